@@ -19,26 +19,26 @@
 (*     no execution gets stuck.                                                 *)
 EXTENDS C3Src
 
-CONSTANT NV          \* number of boundary values per type used for the laws (<= 13)
+CONSTANT NV          \* number of boundary values per type used for the laws (<= 13; the first 4 are 0, 1, -1 / max, min / top bit)
 VARIABLE lw          \* <<>> or a law instance [ta, tb, x, y]
 
 (* ---- boundary values ----------------------------------------------------------- *)
 Narrow == {"i8", "u8", "i16", "u16"}
 Lo(t) == CASE t = "i8" -> -128 [] t = "i16" -> -32768 [] t = "i32" -> -2147483647 - 1 [] OTHER -> 0
 Hi(t) == CASE t = "i8" -> 127 [] t = "u8" -> 255 [] t = "i16" -> 32767 [] t = "u16" -> 65535 [] t = "i32" -> 2147483647
-Ints(t) == CASE t = "i8" -> <<0, 1, -1, 127, -128, 7, 100, 2, 126, -2, -7, -127, 64>>
+Ints(t) == CASE t = "i8" -> <<0, 1, -1, -128, 127, 7, 100, 2, 126, -2, -7, -127, 64>>
              [] t = "u8" -> <<0, 1, 255, 128, 127, 7, 31, 2, 100, 129, 200, 254, 32>>
-             [] t = "i16" -> <<0, 1, -1, 32767, -32768, 7, 255, 2, 256, 32766, -2, -32767, 181>>
+             [] t = "i16" -> <<0, 1, -1, -32768, 32767, 7, 255, 2, 256, 32766, -2, -32767, 181>>
              [] t = "u16" -> <<0, 1, 65535, 32768, 46341, 7, 31, 2, 255, 256, 32767, 65534, 32>>
-             [] t = "i32" -> <<0, 1, -1, 2147483647, -2147483647 - 1, 46341, 7, 2, 65536, 46340, 2147483646, -2, -2147483647>>
+             [] t = "i32" -> <<0, 1, -1, -2147483647 - 1, 2147483647, 46341, 7, 2, 65536, 46340, 2147483646, -2, -2147483647>>
 FromInt(v, n) == IF v >= 0 THEN WFromNat(v, n) ELSE WNot(WFromNat(-(v + 1), n))     \* also for -2^31
 W4(b) == <<b[1], b[2], b[3], b[4]>>
 BV(t) == IF t \in Narrow \cup {"i32"} THEN [k \in 1..13 |-> FromInt(Ints(t)[k], Size(t))]
          ELSE IF t = "u32" THEN <<WZero(4), WOne(4), WOnes(4), <<0, 0, 0, 128>>, WFromNat(65536, 4), WFromNat(7, 4), WFromNat(31, 4),
                                   WFromNat(2, 4), WFromNat(65535, 4), WFromNat(2147483647, 4), <<1, 0, 0, 128>>,
                                   <<254, 255, 255, 255>>, WFromNat(32, 4)>>
-         ELSE IF t = "i64" THEN <<WZero(8), WOne(8), FromInt(-1, 8), <<255, 255, 255, 255, 255, 255, 255, 127>>,
-                                  <<0, 0, 0, 0, 0, 0, 0, 128>>, <<0, 0, 0, 128, 0, 0, 0, 0>>, FromInt(-2147483647 - 1, 8),
+         ELSE IF t = "i64" THEN <<WZero(8), WOne(8), FromInt(-1, 8), <<0, 0, 0, 0, 0, 0, 0, 128>>,
+                                  <<255, 255, 255, 255, 255, 255, 255, 127>>, <<0, 0, 0, 128, 0, 0, 0, 0>>, FromInt(-2147483647 - 1, 8),
                                   WFromNat(2, 8), FromInt(-2, 8), WFromNat(2147483647, 8), <<0, 0, 0, 0, 1, 0, 0, 0>>,
                                   <<1, 0, 0, 0, 0, 0, 0, 128>>, WFromNat(63, 8)>>
          ELSE <<WZero(8), WOne(8), WOnes(8), <<0, 0, 0, 0, 0, 0, 0, 128>>, <<0, 0, 0, 0, 1, 0, 0, 0>>, WFromNat(7, 8),
